@@ -783,6 +783,19 @@ fn runs_for(id: &str, tier: &str) -> u64 {
     }
 }
 
+/// diagnostic only (VERIF_SLOW=<ms>): report runs that take long, on stderr
+struct SlowGuard(u64, std::time::Instant, std::cell::RefCell<String>);
+impl Drop for SlowGuard {
+    fn drop(&mut self) {
+        if let Some(ms) = std::env::var("VERIF_SLOW").ok().and_then(|s| s.parse::<u128>().ok()) {
+            let d = self.1.elapsed().as_millis();
+            if d >= ms {
+                eprintln!("slow run {} took {} ms: {}", self.0, d, self.2.borrow());
+            }
+        }
+    }
+}
+
 pub fn xworker(id: &str, tier: &str, seed: u64, w: u64, n: u64) -> i32 {
     let rt = match CRuntime::build(&format!("{id}-{w}")) {
         Ok(r) => r,
@@ -800,13 +813,19 @@ pub fn xworker(id: &str, tier: &str, seed: u64, w: u64, n: u64) -> i32 {
         let mut o = stdout.lock();
         let _ = writeln!(o, "{}", serde_json::to_string(&v).unwrap());
     };
-    let mut i = w;
+    let mut i = crate::orch::worker_start(w);
     while i < total {
+        crate::orch::announce(i);
+        let t_run = std::time::Instant::now();
+        let _slow = SlowGuard(i, t_run, std::cell::RefCell::new(String::new()));
         let mut rng = Rng::keyed(seed, i, "x-workload");
         let keys = Rng::keyed(seed, i, "hashkeys").next() | 1;
         let mut prng = Rng::keyed(seed, i, "x-plans");
         sum.stats.runs += 1;
-        if id == "C20" && i % 64 == 5 {
+        // driver histories cost several gcc runs each: spread them over the workers by a hash of
+        // the run number (a function of the run alone, so the worker count does not matter)
+        let dh_every = if tier == "thorough" { 256 } else { 64 };
+        if id == "C20" && Rng::keyed(0, i, "dh-slot").next() % dh_every == 5 {
             match driver_history(&mut rng, &format!("{w}")) {
                 Ok((steps, None)) => {
                     sum.stats.executions += steps;
@@ -881,7 +900,9 @@ pub fn xworker(id: &str, tier: &str, seed: u64, w: u64, n: u64) -> i32 {
         } else if (i as usize) < corpus.len() {
             let (p, s, a) = &corpus[i as usize];
             (format!("corpus:{p}"), s.clone(), None, a.clone(), false)
-        } else if i % 12 == 7 {
+        } else if Rng::keyed(0, i, "template-slot").next() % (if tier == "thorough" { 40 } else { 12 }) == 7 {
+            // (slot chosen by a hash of the run number: template runs are heap-heavy and must not
+            // all land on the same workers)
             let (k, s, a) = crate::funtemplates::pick(&mut rng);
             (k, s, None, a, false)
         } else {
@@ -898,6 +919,7 @@ pub fn xworker(id: &str, tier: &str, seed: u64, w: u64, n: u64) -> i32 {
         if shadow {
             sum.stats.with_shadowing += 1;
         }
+        *_slow.2.borrow_mut() = format!("{kind} {argv:?}");
         // wrong argument count (C20): must be reported without running
         if id == "C20" && argv.len() <= 5 && rng.pct(15) {
             let k = argv.len();
@@ -1175,52 +1197,43 @@ pub fn check(id: &str, tier: &str) -> i32 {
     let nw: u64 = std::env::var("VERIF_WORKERS").ok().and_then(|s| s.parse().ok()).unwrap_or_else(|| std::thread::available_parallelism().map(|n| n.get() as u64).unwrap_or(8));
     println!("VERIF_SEED={seed} property={id} tier={tier} runs={} workers={nw}", runs_for(id, tier));
     let exe = std::env::current_exe().expect("exe");
-    let mut handles = Vec::new();
-    for w in 0..nw {
-        let mut c = Command::new(&exe)
-            .args(["xworker", id, tier, &seed.to_string(), &w.to_string(), &nw.to_string()])
-            .stdout(Stdio::piped())
-            .stderr(Stdio::null())
-            .spawn()
-            .expect("spawn");
-        let out = c.stdout.take().unwrap();
-        handles.push(std::thread::spawn(move || {
-            let lines: Vec<String> = BufReader::new(out).lines().map_while(Result::ok).collect();
-            let st = c.wait().ok().and_then(|s| s.code());
-            (lines, st)
-        }));
-    }
     let mut total = XStats::default();
     let mut found: Vec<XReplay> = Vec::new();
     let mut hashes: BTreeSet<u64> = BTreeSet::new();
     let mut samples = Vec::new();
-    for h in handles {
-        let (lines, st) = h.join().unwrap();
-        let mut ok = false;
-        for l in lines {
-            let Ok(v) = serde_json::from_str::<serde_json::Value>(&l) else { continue };
-            if let Some(f) = v.get("found") {
-                if let Ok(rp) = serde_json::from_value::<XReplay>(f.clone()) {
-                    found.push(rp);
+    let mk = |w: u64| -> Command {
+        let mut c = Command::new(&exe);
+        c.args(["xworker", id, tier, &seed.to_string(), &w.to_string(), &nw.to_string()]);
+        c
+    };
+    let (lines, crash_notes) = match crate::orch::supervise(nw, &mk) {
+        Ok(x) => x,
+        Err(e) => {
+            println!("HARNESS-ERROR: {e}");
+            return 2;
+        }
+    };
+    for n in crash_notes {
+        *total.notes.entry(n).or_default() += 1;
+    }
+    for l in lines {
+        let Ok(v) = serde_json::from_str::<serde_json::Value>(&l) else { continue };
+        if let Some(f) = v.get("found") {
+            if let Ok(rp) = serde_json::from_value::<XReplay>(f.clone()) {
+                found.push(rp);
+            }
+        } else if let Some(s) = v.get("summary") {
+            if let Ok(s) = serde_json::from_value::<XSummary>(s.clone()) {
+                if let Some(h) = s.harness {
+                    println!("HARNESS-ERROR: {h}");
+                    return 2;
                 }
-            } else if let Some(s) = v.get("summary") {
-                if let Ok(s) = serde_json::from_value::<XSummary>(s.clone()) {
-                    if let Some(h) = s.harness {
-                        println!("HARNESS-ERROR: {h}");
-                        return 2;
-                    }
-                    ok = true;
-                    total.merge(&s.stats);
-                    hashes.extend(s.hashes);
-                    if samples.len() < 3 {
-                        samples.extend(s.samples.into_iter().take(1));
-                    }
+                total.merge(&s.stats);
+                hashes.extend(s.hashes);
+                if samples.len() < 3 {
+                    samples.extend(s.samples.into_iter().take(1));
                 }
             }
-        }
-        if !ok || st != Some(0) {
-            println!("HARNESS-ERROR: {id} worker ended abnormally (status {st:?})");
-            return 2;
         }
     }
     let rt = match CRuntime::build(&format!("{id}-main")) {
